@@ -548,6 +548,22 @@ func (x *advCtx) scenarios() []scenario {
 			var out []scenario
 			out = append(out, scenario{name: "honest/true-claim", in: with(r)})
 			out = append(out, scenario{name: "honest/claim=r+1", family: famHonest, in: with(wrong), mustFail: true, why: "E = r+1 modulo the variable modulus"})
+			// width-violating witness handed directly to the variable-modulus operation, true arithmetic
+			// claim: nothing but the operation's own range check of its operands stands in the way
+			for _, which := range []string{"low-limb=2^w", "top-limb=2^topwidth"} {
+				l := splitLimbs(randBelow(x.rng, p), w, n)
+				if which == "low-limb=2^w" {
+					if n < 2 {
+						continue
+					}
+					l[0] = new(big.Int).Lsh(big.NewInt(1), w)
+				} else {
+					l[n-1] = new(big.Int).Lsh(big.NewInt(1), fc.topWidth())
+				}
+				av := joinLimbs(l, w)
+				in := advInput{ALimbs: l, B: b, M: mm, E: modp(new(big.Int).Mul(av, b), mm)}
+				out = append(out, scenario{name: "modmul/witness/" + which, family: famWidth, in: in, mustFail: true, why: "witness limb wider than the field parameters allow, operand of ModMul"})
+			}
 			m := matchAB(a, b)
 			for _, over := range []bool{false, true} {
 				fam, nm := famCarry, "modmul/native-wrap(r+1)"
